@@ -75,3 +75,19 @@ Fixpoint g_uniq (v : json) : bool :=
   | JObj l => forallb (fun kv => g_uniq (snd kv)) l
   | _ => true
   end.
+
+(* well-formed JSON objects (unique member names), and the value-side guard *)
+Fixpoint g_wf (v : json) : bool :=
+  match v with
+  | JArr l => forallb g_wf l
+  | JObj l => nodup_str (map fst l) && forallb (fun kv => g_wf (snd kv)) l
+  | _ => true
+  end.
+Definition vg (v : json) : bool := all_finite v && g_uniq v && g_wf v.
+
+Definition here_ok (rc : string -> bool) (s : schema) : bool :=
+  g_empty_here s && g_excl_here (core_of s) && g_small_here (core_of s) &&
+  g_pattern_here rc (core_of s) &&
+  match s with Sch _ _ _ _ _ _ props _ => nodup_str (map fst props) end.
+Definition g_all (rc : string -> bool) : schema -> bool := all_sub (here_ok rc).
+
